@@ -74,7 +74,7 @@ from harness import c10 as _c10
 
 HARNESSES = dict(structure=h_structure, wire=wire.h_wire, dt_write=_c09.h_write, dt_read=_c09.h_read,
                  string_value=_c10.h_string_value, string_text=_c10.h_string_text, string_tokens=_c10.h_string_tokens,
-                 dec_value=_c10.h_dec_value, int_value=_c10.h_int_value, oneof=_c10.h_oneof, bool=_c10.h_bool)
+                 dec_value=_c10.h_dec_value, dec_long=_c10.h_dec_long, int_value=_c10.h_int_value, oneof=_c10.h_oneof, bool=_c10.h_bool)
 
 META = dict(
     bounds=dict(structure="per class: <= 3 optional children of symbolic presence, <= 3 list members of symbolic type/order, <= 2 symbolic leaf values",
@@ -84,6 +84,7 @@ META = dict(
             "OFXClient.serialize, make_header, utils.indent, tostring_unclosed_elements, ET.tostring(method=html) model",
             "parse_header (BytesIO model), TreeBuilder.feed/_feedmatch/_start/_groomstring over the C-faithful builder model"],
     assumptions=["composition: structure lemma x value lemma (C10) x wire lemma give the end-to-end round trip",
+                 "wire lemma trees: no data element carries the name of its enclosing aggregate (true of every declared OFX aggregate; with end tags omitted the notation is ambiguous otherwise)",
                  "side condition checked by reflection on every run: no declared tag, lower-cased, is an HTML void element or script/style"],
 )
 
@@ -97,7 +98,11 @@ def pre(tier, seed):
             for t in (a, ofxgen.wire_tag(K, a).lower(), K.__name__.lower()):
                 if t in HTML_EMPTY or t in ("script", "style"):
                     bad.append(f"{K.__name__}.{a}")
-    return dict(observations=[f"side condition (no HTML void / raw-text tag among declared tags): {'holds' if not bad else 'FAILS for ' + ', '.join(sorted(set(bad)))}"])
+    from ofxtools import Types
+    same = [f"{K.__name__}.{a}" for K in ofxgen.all_classes() for a, c in K.spec.items()
+            if isinstance(c, (Types.Element, Types.ListElement)) and ofxgen.wire_tag(K, a).upper() == K.__name__.upper()]
+    return dict(observations=[f"side condition (no HTML void / raw-text tag among declared tags): {'holds' if not bad else 'FAILS for ' + ', '.join(sorted(set(bad)))}",
+                              f"side condition (no data element named like its enclosing aggregate): {'holds' if not same else 'FAILS for ' + ', '.join(sorted(same))}"])
 
 
 def instances(tier, seed):
@@ -122,6 +127,7 @@ def instances(tier, seed):
     mk("value:string_tokens[String,6,2]", "string_tokens", dict(cls="String", length=6, ntok=2))
     for sc, e in ((None, -2), (None, 0), (None, 2), (2, -2)):
         mk(f"value:dec_value[{sc},{e}]", "dec_value", dict(scale=sc, exp=e))
+    mk("value:dec_long[None,28,2]", "dec_long", dict(scale=None, ni=28, nf=2), timeout_ms=30000)
     mk("value:int_value[3]", "int_value", dict(length=3))
     mk("value:oneof", "oneof", dict(toks="five", n=2))
     mk("value:bool", "bool", {})
